@@ -5,11 +5,11 @@ from lib import vlib
 RULE = ("schedules: for each script configuration the harness derives the instruction shape of the real script, TLC explores "
         "every interleaving of Run / Invoker / Abort / Eval.run / cancel at hook-to-hook grain (safety + liveness), and exports "
         "one schedule per transition of the state graph (edge cover); each schedule is forced on real goroutines through the "
-        "sync-point gates, then all gates open and the property is judged on the real outcome; non-trivial = the schedule "
+        "sync-point gates, then all gates open and the property is judged on the real outcome, including three later scripts on the same VM (an error outside any try statement, a try statement, a plain return; configurations with the abort striking inside try statements of the main function); non-trivial = the schedule "
         "contains an Abort that began after Run's reset, or a cancellation")
 
-CONFIGS_QUICK = ["run-cb2-inf", "run-cb1-nopool", "run-plain", "eval-cb", "eval-cbinf"]
-CONFIGS_THOROUGH = ["run-cb2-inf", "run-cb1-nopool", "run-cb1-fin", "run-plain", "eval-cb", "eval-plain", "eval-cbinf"]
+CONFIGS_QUICK = ["run-cb2-inf", "run-cb1-nopool", "run-try-call", "run-plain", "eval-cb", "eval-cbinf"]
+CONFIGS_THOROUGH = ["run-cb2-inf", "run-cb1-nopool", "run-cb1-try", "run-try-call", "run-cb1-fin", "run-plain", "eval-cb", "eval-plain", "eval-cbinf"]
 
 def tla_seq(xs):
     return "<<" + ", ".join('"%s"' % x for x in xs) + ">>"
